@@ -911,20 +911,9 @@ func (s *session) runTx(bs *state.BlockState, exec chain.TxExecFn, bi *types.Blo
 }
 
 // classify names the known defect class a failing successful tx belongs to (by input shape), or "".
+// The two name-contract shapes this check found (v1setOwner to the sender; a paid name tx while
+// aergo.name owns itself) are repaired in /repo: they are ordinary violations now.
 func (s *session) classify(x *txSpec, pre *snap) string {
-	if x.typ != types.TxType_GOVERNANCE || x.rcpt != iName {
-		return ""
-	}
-	if x.gov[0] == "setowner" {
-		if a, _ := strconv.Atoi(x.gov[1]); a == x.sender {
-			return "setOwner-owner-is-sender"
-		}
-	}
-	if x.gov[0] == "ncreate" || x.gov[0] == "nupdate" {
-		if o, ok := pre.names[0]; ok && o[0] == iName {
-			return "name-owner-is-aergo.name"
-		}
-	}
 	return ""
 }
 
